@@ -44,6 +44,7 @@ LEVEL = {
 LEVEL["decided"] += ' (R07.7) subclasses of the borrowed handle override nothing but aclose/__repr__ (the tables hold for them unchanged).'
 LEVEL["decided"] += " R07.3 is evaluated on the handle's public aclose for underlying iterators with both, none or just one of asend / athrow."
 LEVEL["decided"] += " (R07.8) no library operation calls athrow / asend on an iterator it was handed (a borrowed handle forwards both to the owner's iterator)."
+LEVEL["decided"] += ' (R07.9) no library code looks through a borrowed handle: the field holding the underlying iterator is read on self only.'
 
 BORROW_CLASSES = ["asynctools._BorrowedAsyncIterator", "asynctools._ScopedAsyncIterator"]
 FORWARDED = {"asend", "athrow"}
